@@ -12,9 +12,12 @@ for e, fns in [("REPT_step", ["REPT_Processor", "REPT_GetPos"]), ("IRP_step", ["
     GROUPS.append(G("pos_" + e, REP, "h_" + e, enforce=[], link=["asmdef.c"], stubs=["stubs/gerr.c"], unwind=8, timeout=600, dfcc=False,
                     object_bits=12, defs=["-DSTRINGSIZE=64"], functions=fns,
                     bounded="body of at most 3 lines, at most 4 IRP parameters, group size <= 2"))
+GROUPS.append(G("pos_INCLUDE_lines", "harness/C20/h_as_include.c", "h_INCLUDE_lines", enforce=[], link=["asmdef.c", "strcomp.c"], stubs=["stubs/gerr.c"], unwind=8, timeout=600, dfcc=False,
+                object_bits=12, defs=["-DSTRINGSIZE=64"],
+                functions=["ExpandINCLUDE_Core", "INCLUDE_Processor", "INCLUDE_Restorer", "GenerateProcessor"]))
 TRUSTED_BASE = ["ghost output channels / exit monitor of h_asmerr.c", "argument-logging stubs of h_as_rept.c"]
 ASSUMPTIONS = ["announcing the numbers of the EXPECT machinery's own messages (2130, 2150, 2160) is excluded"]
-NOT_COVERED = ["GetErrorPos chain concatenation", "INCLUDE_Processor / MACRO_Processor line counting", "ReadLnCont continuation lines", "column markers", "-gnuerrors formatting"]
+NOT_COVERED = ["GetErrorPos chain concatenation", "MACRO_Processor line counting", "INCLUDE_SearchCore (file search), ReadLnCont (oracle: number of physical lines read)", "ReadLnCont continuation lines", "column markers", "-gnuerrors formatting"]
 EXPLANATION = ("Kernel only: (1) EXPECT/ENDEXPECT: an announced number is suppressed exactly once per announcement (multiset with witness number), "
                "unannounced numbers are untouched, ENDEXPECT reports every announcement left, a missing ENDEXPECT is reported at pass end; "
                "(2) REPT/IRP: after a body line was delivered, CurrLine and the position report name that iteration/parameter and that body line. "
